@@ -5,10 +5,12 @@
     arguments of [to_angle] (= _to_angle) and [dispatch_table] are GENERATED from srctools/math.py on every run
     (Gen/RotFormulas_gen.v, Gen/RotDispatch_gen.v).  Arithmetic is over the classical reals: floating-point rounding
     is outside the model (the property says "up to rounding"). *)
-From Coq Require Import Reals List.
+From Coq Require Import Reals List QArith Qreals.
 From SV Require Import Rot.RotBase Gen.RotFormulas_gen Rot.RotAlgebra Rot.RotAliasProofs Rot.RotEuler Rot.RotEulerProofs
   Rot.RotDispatch Rot.RotDispatchProofs Rot.RotMixedProofs Gen.RotDispatch_gen Rot.RotGJ Rot.RotGJProofs Rot.RotGJTotal Rot.RotGJTotalProofs Rot.RotGJExample
-  Rot.RotReify Gen.RotReified_gen Rot.RotReifyProofs.
+  Rot.RotReify Gen.RotReified_gen Rot.RotReifyProofs
+  Rot.RotRound Rot.RotRoundProofs Rot.RotRoundFlocq Gen.RotRounded_gen Rot.RotRoundTied.
+Import ListNotations.
 Open Scope R_scope.
 
 (** ** Every matrix built from an Euler angle is a proper rotation *)
@@ -147,6 +149,41 @@ Theorem c04_mixed_assoc_angle : forall atan2, atan2_spec atan2 -> forall v a B m
   exists ab, spec atan2 (VAng a) B = Some (VAng ab) /\
     spec atan2 (VVec (vec_rot (from_angle_obj a) v)) B = spec atan2 (VVec v) (VAng ab).
 Proof. exact mixed_assoc_angle. Qed.
+
+(** ** "... up to rounding": the float side of v @ M and A @ B.
+    The expression trees of _vec_rot and _mat_mul (reified from the same trees that are compared bit for bit with the
+    implementation) evaluated with a rounding after every + - * stay within a rational bound [fe_err] of their exact value:
+    sound for every tree, every input bound and every rounding with |rnd t - t| <= u |t| + eta ... *)
+Theorem c04_rounding_analysis_sound : forall rnd u eta,
+  (forall t, Rabs (rnd t - t) <= Q2R u * Rabs t + Q2R eta) -> 0 <= Q2R u ->
+  forall B env, (forall n, Rabs (env n) <= Q2R (B n)) ->
+  forall e, Rabs (fe_exact env e) <= Q2R (fe_mag B e) /\ Rabs (fe_fl rnd env e - fe_exact env e) <= Q2R (fe_err u eta B e).
+Proof. exact fe_error_bound. Qed.
+(** ... IEEE binary64 round-to-nearest-even (Flocq's [round radix2 (FLT_exp (-1074) 53) ZnearestE]) is one, with u = 2^-53
+    and eta = 2^-1075 (underflow included; overflow excluded: the exponent range of [rnd64] is unbounded above) ... *)
+Theorem c04_binary64_rounding : forall t, Rabs (rnd64 t - t) <= Q2R u64 * Rabs t + Q2R eta64.
+Proof. exact rnd64_error. Qed.
+(** ... the trees are the generated real formulas ... *)
+Theorem c04_rounded_trees_tied : forall s o v,
+  map (fe_exact (env_sov s o v)) vec_rot_fe = [vx (vec_rot s v); vy (vec_rot s v); vz (vec_rot s v)] /\
+  map (fe_exact (env_sov s o v)) mat_mul_fe = (let m := mat_mul s o in [aa m; ab m; ac m; ba m; bb m; bc m; ca m; cb m; cc m]).
+Proof. intros s o v. split; [apply vec_rot_fe_tied | apply mat_mul_fe_tied]. Qed.
+(** ... so every component of the binary64 v @ M is within [tol] of the real v @ M, and every entry of the binary64 A @ B
+    within [tol] of the real product, for all matrices with entries up to [bm] (exact rotations: 1) and vectors with
+    components up to [bv], whenever the decidable test accepts [tol] (named instance obligations, e.g. 2e-15 for unit
+    inputs: the oracle's tolerance 1e-9 is not an empirical number for these two formulas). *)
+Theorem c04_vec_rot_binary64_error : forall bm bv tol, errs_within bm bv tol vec_rot_fe = true ->
+  forall s v, mat_within bm s -> vec_within bv v -> forall i, (i < 3)%nat ->
+  Rabs (nth i (map (fe_fl rnd64 (env_sov s s v)) vec_rot_fe) 0 -
+        nth i [vx (vec_rot s v); vy (vec_rot s v); vz (vec_rot s v)] 0) <= Q2R tol.
+Proof. exact vec_rot_binary64_error. Qed.
+Theorem c04_mat_mul_binary64_error : forall bm tol, errs_within bm 0 tol mat_mul_fe = true ->
+  forall s o, mat_within bm s -> mat_within bm o -> forall i, (i < 9)%nat ->
+  Rabs (nth i (map (fe_fl rnd64 (env_sov s o (Vec3 0 0 0))) mat_mul_fe) 0 -
+        nth i (let m := mat_mul s o in [aa m; ab m; ac m; ba m; bb m; bc m; ca m; cb m; cc m]) 0) <= Q2R tol.
+Proof. exact mat_mul_binary64_error. Qed.
+Theorem c04_rotation_entries_within_1 : forall m, rotation m -> mat_within 1 m.
+Proof. exact rotation_within_1. Qed.
 
 (** Non-vacuity of the Gauss-Jordan theorems: a program equal to today's generated one is accepted and inverse() returns on
     the identity (which is a rotation). *)
